@@ -40,6 +40,30 @@ def numba_cache_dir(kind: str = "shared", th: str | None = None) -> str:
     return os.path.join(CACHE_ROOT, "numba", th[:16], kind)
 
 
+NATIVE_SHIM = os.path.join(CACHE_ROOT, "libverifclock.so")
+NATIVE_SRC = os.path.join(VERIF, "sim", "native", "clockshim.c")
+
+
+def ensure_native():
+    """Build the LD_PRELOAD clock shim (clang, offline). Returns its path or None when it cannot be built."""
+    import subprocess
+
+    try:
+        if os.path.exists(NATIVE_SHIM) and os.path.getmtime(NATIVE_SHIM) >= os.path.getmtime(NATIVE_SRC):
+            return NATIVE_SHIM
+        os.makedirs(CACHE_ROOT, exist_ok=True)
+        tmp = NATIVE_SHIM + f".{os.getpid()}.tmp"
+        for cc in ("clang", "gcc", "cc"):
+            r = subprocess.run([cc, "-shared", "-fPIC", "-O2", "-w", "-o", tmp, NATIVE_SRC, "-ldl"],
+                               capture_output=True, text=True)
+            if r.returncode == 0:
+                os.replace(tmp, NATIVE_SHIM)
+                return NATIVE_SHIM
+    except Exception:  # noqa: BLE001
+        pass
+    return None
+
+
 def child_env(threads: str | None = "1", hashseed: str | None = "0", tz: str | None = None,
               numba_dir: str | None = None, th: str | None = None) -> dict:
     """Environment for a worker interpreter (set before numpy is imported)."""
@@ -59,6 +83,8 @@ def child_env(threads: str | None = "1", hashseed: str | None = "0", tz: str | N
     else:
         env["TZ"] = tz
     env[GUARD] = "1"
+    if os.path.exists(NATIVE_SHIM):
+        env["LD_PRELOAD"] = NATIVE_SHIM   # clock seam for native code (NLopt's gettimeofday)
     env["PYTHONWARNINGS"] = "ignore"
     env["PYTHONPATH"] = VERIF + os.pathsep + env.get("PYTHONPATH", "")
     return env
